@@ -56,7 +56,17 @@ func c33Child(run *mon.Run, tier, name string) {
 			run.Checkpoint()
 		}
 	}
+	// the restart episodes of this child must have happened: rounds restarted with a partial set of verified shares, shares counted
+	// and seeds compared afterwards
+	for name, min := range map[string]int64{"c33.restart_with_partial_shares": 20, "c33.restart_share_counted_after_restart": 40, "c33.restart_seed_agreement_evaluated": 20} {
+		if got := run.Counter(name); got < min {
+			run.Inconclusive(fmt.Sprintf("child %s: counter %s is %d, at least %d expected", name2(ci), name, got, min))
+		}
+	}
+	run.Assume("a round restart is miner.Round.Restart followed by IncrementTimeoutCount(previous round's seed, miners of the round), the two calls miner.Chain.restartRound makes (the fetch of a notarized block in front of them and RedoVrfShare behind them are network steps and not driven); where the configured timeout_cap keeps the count, or for a block of a higher count, SetTimeoutCount raises it right after the restart")
 }
+
+func name2(ci int) string { return fmt.Sprintf("vrf%d", ci) }
 
 func c33Scenario(run *mon.Run, ctx context.Context, w *world.World, mc *miner.Chain, r *mon.Rand, t, n int, base int64, tier string) {
 	tn := fmt.Sprintf("t=%d|n=%d", t, n)
@@ -348,6 +358,9 @@ func c33Scenario(run *mon.Run, ctx context.Context, w *world.World, mc *miner.Ch
 
 	// ---- (d) shares that arrive before they can be checked
 	c33Parked(run, ctx, w, mc, r.Fork("parked"), s, other, t, n, base, tier)
+
+	// ---- (e) rounds that time out and are restarted while shares are being collected
+	c33Restart(run, ctx, w, mc, r.Fork("restart"), s, other, t, n, base, tier)
 }
 
 // ---------------------------------------------------------------------------------------------------
@@ -772,6 +785,451 @@ func c33Parked(run *mon.Run, ctx context.Context, w *world.World, mc *miner.Chai
 			}
 		}
 		_ = self
+	}
+}
+
+// ---------------------------------------------------------------------------------------------------
+// (e) round restarts. A miner that cannot make progress restarts the round: miner.Round.Restart (round.Round.Restart underneath)
+// and then IncrementTimeoutCount, as miner.Chain.restartRound does; a block of a higher timeout count raises the count with
+// SetTimeoutCount. The VRF message contains the timeout count, so what was collected before counts for another message.
+// Observers of an episode collect fewer than t verified shares at a timeout count, restart (once or twice), and then get the
+// shares of the final timeout count in various orders - with the parties they had already heard from first, or last, with
+// re-sent shares of the earlier count, with bad shares between; next to them observers that never restarted.
+//
+// Oracle (the one of (b) and (d)), after every delivery and after every restart: every share the round holds verifies
+// (herumi, reference public key share of its sender) against the message of the round's CURRENT timeout count and carries
+// that count; never more than t are held; a seed exists only when valid shares of >= t parties for the current count have been
+// delivered, it equals the seed defined by the group signature recovered from reference shares, and all observers of an
+// episode end with the same seed.
+
+type c33RNode struct {
+	name     string
+	startTC  int
+	stages   [][]c33PMsg // stage i is delivered at timeout count startTC+i (or the capped count) and followed by a restart
+	raise    []string    // per stage: how the timeout count moves on after Restart: "increment" | "set" | "increment-then-set"
+	late     []c33PMsg
+	mr       *miner.Round
+	preKeys  map[string]bool // party|tc|share of what was delivered before a restart
+	seenAt   map[int]bool    // parties whose valid share for the current count has been delivered since the last restart
+	restarts int
+	failed   bool
+	stale    bool // a share of an earlier timeout count was found among the round's shares after a restart (reported once; the observer goes on)
+}
+
+func c33Restart(run *mon.Run, ctx context.Context, w *world.World, mc *miner.Chain, r *mon.Rand, s, other *dkgSet, t, n int, base int64, tier string) {
+	tn := fmt.Sprintf("t=%d|n=%d", t, n)
+	all := len(w.Miners)
+	allNodes := make([]*node.Node, all)
+	idIndex := map[string]int{}
+	for i := 0; i < all; i++ {
+		allNodes[i] = w.MB.Miners.GetNode(w.Miners[i].ID)
+		idIndex[w.Miners[i].ID] = i
+	}
+	nEp := 3
+	if tier == "thorough" {
+		nEp = 10
+	}
+	for ep := 0; ep < nEp; ep++ {
+		rr := r.Fork(fmt.Sprintf("restart%d", ep))
+		prn := base + 200 + int64(ep)*2
+		rn := prn + 1
+		prevSeed := int64(rr.U64()>>1) | 1
+		finalTC := 1 + ep%2 // the timeout count at which the seed is finally derived
+		msgAt := func(tc int) string { return fmt.Sprintf("%v%v%v", rn, tc, strconv.FormatInt(prevSeed, 16)) }
+		msg := msgAt(finalTC)
+		// reference verdict of one share message for a round at timeout count cur
+		refOKAt := func(party int, share string, tc, cur int) bool {
+			if party < 0 || party >= n || tc != cur {
+				return false
+			}
+			var sg bls.Sign
+			if sg.SetHexString(share) != nil {
+				return false
+			}
+			return sg.Verify(s.refPK[party], msgAt(cur))
+		}
+		// reference seed of the final timeout count: group signature recovered with the library from two t-subsets
+		var wantSeed int64
+		var wantRBO string
+		{
+			var first string
+			okRef := true
+			subs := subsets(n, t)
+			for k, sub := range [][]int{subs[0], subs[len(subs)-1]} {
+				var ids []bls.ID
+				var sigs []bls.Sign
+				for _, j := range sub {
+					ids = append(ids, s.dkgs[j].ID)
+					sigs = append(sigs, *s.dkgs[j].Sign(msg))
+				}
+				var g bls.Sign
+				if err := g.Recover(sigs, ids); err != nil || !g.Verify(s.refGPK, msg) {
+					okRef = false
+					break
+				}
+				if k == 0 {
+					first = g.GetHexString()
+				} else if g.GetHexString() != first {
+					okRef = false
+				}
+			}
+			if !okRef {
+				run.Inconclusive(fmt.Sprintf("%s: the reference group signature cannot be recovered / does not verify", tn))
+				return
+			}
+			wantRBO = encryption.Hash(first)
+			u, err := strconv.ParseUint(wantRBO[:16], 16, 64)
+			if err != nil {
+				panic(err)
+			}
+			wantSeed = int64(u)
+		}
+
+		// ---- the share messages of this episode
+		validAt := func(tc int) []c33PMsg {
+			cl := "valid"
+			if tc != finalTC {
+				cl = "valid-at-earlier-timeout-count"
+			}
+			var out []c33PMsg
+			for j := 0; j < n; j++ {
+				out = append(out, c33PMsg{cl, j, s.dkgs[j].Sign(msgAt(tc)).GetHexString(), tc})
+			}
+			return out
+		}
+		valid := validAt(finalTC)
+		classes := []string{"wrong-message", "other-timeout-message", "later-timeout-honest", "earlier-timeout-resent", "earlier-timeout-message-current-count", "wrong-signer", "other-dkg", "shifted", "garbage"}
+		mkBad := func(class string, j int) c33PMsg {
+			m := c33PMsg{class: class, party: j, tc: finalTC}
+			switch class {
+			case "wrong-message":
+				m.share = s.dkgs[j].Sign(msg + "x").GetHexString()
+			case "other-timeout-message":
+				m.share = s.dkgs[j].Sign(msgAt(finalTC + 1)).GetHexString()
+			case "later-timeout-honest":
+				m.share, m.tc = s.dkgs[j].Sign(msgAt(finalTC+1)).GetHexString(), finalTC+1
+			case "earlier-timeout-resent": // the share the party sent before everybody restarted, once more
+				m.share, m.tc = s.dkgs[j].Sign(msgAt(finalTC-1)).GetHexString(), finalTC-1
+			case "earlier-timeout-message-current-count": // the old share under the new count
+				m.share = s.dkgs[j].Sign(msgAt(finalTC - 1)).GetHexString()
+			case "wrong-signer":
+				m.share = s.dkgs[(j+1)%n].Sign(msg).GetHexString()
+			case "other-dkg":
+				m.share = other.dkgs[j].Sign(msg).GetHexString()
+			case "shifted":
+				m.share = addSignHex(s.dkgs[j].Sign(msg).GetHexString(), randG1(rr))
+			case "garbage":
+				m.share = "zz" + encryption.Hash("garbage")
+			}
+			return m
+		}
+		var bad []c33PMsg
+		for k := 2 + rr.Intn(4); k > 0; k-- {
+			if m := mkBad(classes[rr.Intn(len(classes))], rr.Intn(n)); !refOKAt(m.party, m.share, m.tc, finalTC) {
+				bad = append(bad, m) // (with t=1 every party holds the same key share: a "wrong signer" share is valid there)
+			}
+		}
+		if len(bad) == 0 {
+			bad = append(bad, mkBad("wrong-message", rr.Intn(n)))
+		}
+		key := func(party int, share string, tc int) string { return fmt.Sprintf("%d|%d|%s", party, tc, share) }
+		classOf := map[string]string{}
+		note := func(ms []c33PMsg) {
+			for _, m := range ms {
+				if _, ok := classOf[key(m.party, m.share, m.tc)]; !ok {
+					classOf[key(m.party, m.share, m.tc)] = m.class
+				}
+			}
+		}
+		note(valid)
+		note(bad)
+		for tc := 0; tc < finalTC; tc++ {
+			note(validAt(tc))
+		}
+		shuffled := func(in []c33PMsg) []c33PMsg {
+			out := append([]c33PMsg{}, in...)
+			rr.Shuffle(len(out), func(i, j int) { out[i], out[j] = out[j], out[i] })
+			return out
+		}
+		// a partial set: valid shares of 1..t-1 parties for timeout count tc
+		partial := func(tc int) []c33PMsg {
+			v := shuffled(validAt(tc))
+			return v[:1+rr.Intn(t-1)]
+		}
+		partiesOf := func(ms []c33PMsg) map[int]bool {
+			out := map[int]bool{}
+			for _, m := range ms {
+				out[m.party] = true
+			}
+			return out
+		}
+		// the final shares with the given parties first (or last)
+		ordered := func(first map[int]bool, front bool) []c33PMsg {
+			var a, b []c33PMsg
+			for _, m := range shuffled(valid) {
+				if first[m.party] == front {
+					a = append(a, m)
+				} else {
+					b = append(b, m)
+				}
+			}
+			return append(a, b...)
+		}
+
+		// ---- the observers
+		var obs []*c33RNode
+		if t >= 2 {
+			{
+				// a partial set, restart, then the final shares with the same parties first: their new shares must count
+				st := partial(finalTC - 1)
+				obs = append(obs, &c33RNode{name: "partial-then-same-parties-first", startTC: finalTC - 1, stages: [][]c33PMsg{st}, raise: []string{"increment"}, late: ordered(partiesOf(st), true)})
+			}
+			{
+				// a partial set, restart, then the other parties first
+				st := partial(finalTC - 1)
+				obs = append(obs, &c33RNode{name: "partial-then-other-parties-first", startTC: finalTC - 1, stages: [][]c33PMsg{st}, raise: []string{"increment"}, late: ordered(partiesOf(st), false)})
+			}
+			{
+				// a partial set next to bad shares and shares of the next count that arrive early; after the restart everything mixed
+				st := append(partial(finalTC-1), valid[rr.Intn(n)])
+				if b := bad[rr.Intn(len(bad))]; !refOKAt(b.party, b.share, b.tc, finalTC-1) {
+					st = append(st, b) // (a re-sent share of the earlier count is a valid one before the restart: fewer than t stay)
+				}
+				st = shuffled(st)
+				obs = append(obs, &c33RNode{name: "partial-mixed", startTC: finalTC - 1, stages: [][]c33PMsg{st}, raise: []string{"increment"}, late: shuffled(append(append([]c33PMsg{}, valid...), bad...))})
+			}
+			{
+				// after the restart the shares of the earlier count come once more before the new ones
+				st := partial(finalTC - 1)
+				late := append(shuffled(validAt(finalTC-1)), shuffled(append(append([]c33PMsg{}, valid...), bad...))...)
+				obs = append(obs, &c33RNode{name: "partial-then-earlier-shares-resent", startTC: finalTC - 1, stages: [][]c33PMsg{st}, raise: []string{"set"}, late: late})
+			}
+			if finalTC >= 2 {
+				// two restarts, a partial set before each
+				st0, st1 := partial(finalTC-2), partial(finalTC-1)
+				obs = append(obs, &c33RNode{name: "partial-twice", startTC: finalTC - 2, stages: [][]c33PMsg{st0, st1}, raise: []string{"increment", "increment"}, late: ordered(partiesOf(st1), rr.Chance(0.5))})
+			}
+			{
+				// a restart that leaves the timeout count where it was (the configured cap), then a block raises it
+				st := partial(finalTC - 1)
+				obs = append(obs, &c33RNode{name: "partial-restart-then-raised-by-block", startTC: finalTC - 1, stages: [][]c33PMsg{st}, raise: []string{"increment-then-set"}, late: ordered(partiesOf(st), rr.Chance(0.5))})
+			}
+		}
+		// a restart with nothing collected
+		obs = append(obs, &c33RNode{name: "empty-restart", startTC: finalTC - 1, stages: [][]c33PMsg{nil}, raise: []string{"increment"}, late: shuffled(append(append([]c33PMsg{}, valid...), bad...))})
+		// never restarted: at the final count from the start (a miner that joined late / got the count from a block)
+		obs = append(obs, &c33RNode{name: "never-restarted", startTC: finalTC, late: shuffled(append(append([]c33PMsg{}, valid...), bad...))})
+		obs = append(obs, &c33RNode{name: "never-restarted-shares-only", startTC: finalTC, late: shuffled(valid)})
+		for _, nd := range obs {
+			nd.late = append(nd.late, shuffled(valid)...) // shares are re-sent on soft timeouts
+			nd.preKeys, nd.seenAt = map[string]bool{}, map[int]bool{}
+		}
+
+		pr := mc.AddRound(mc.CreateRound(round.NewRound(prn))).(*miner.Round)
+		if !mc.SetRandomSeed(pr.Round, prevSeed) {
+			run.Inconclusive("cannot set the previous round's seed")
+			return
+		}
+		for _, nd := range obs {
+			nd.mr = mc.CreateRound(round.NewRound(rn))
+			for nd.mr.GetTimeoutCount() < nd.startTC {
+				nd.mr.SetTimeoutCount(nd.mr.GetTimeoutCount() + 1)
+			}
+		}
+		run.Count("c33.restart_episode", 1)
+
+		toVRFS := func(m c33PMsg) *round.VRFShare {
+			v := &round.VRFShare{Round: rn, Share: m.share, RoundTimeoutCount: m.tc}
+			v.SetParty(allNodes[m.party])
+			return v
+		}
+		rep := func(nd *c33RNode, phase string, si int) map[string]interface{} {
+			st := [][]string{}
+			for _, x := range nd.stages {
+				st = append(st, c33Labels(x))
+			}
+			return map[string]interface{}{"seed": mon.Seed(), "t": t, "n": n, "observer": nd.name, "phase": phase, "step": si, "round": rn, "start_timeout_count": nd.startTC,
+				"final_timeout_count": finalTC, "timeout_count_now": nd.mr.GetTimeoutCount(), "restarts": nd.restarts, "before_restarts": st, "how_raised": nd.raise, "late": c33Labels(nd.late)}
+		}
+		// the rules, applied to the round as it is now
+		judge := func(nd *c33RNode, phase string, si int, what string) {
+			cur := nd.mr.GetTimeoutCount()
+			fail := func(sig, detail string) {
+				violate(run, sig, fmt.Sprintf("t=%d n=%d, observer %s (%d restart(s), timeout count %d of %d), %s step %d (%s): %s", t, n, nd.name, nd.restarts, cur, finalTC, phase, si, what, detail), rep(nd, phase, si))
+				nd.failed = true
+				run.Checkpoint()
+			}
+			held := nd.mr.GetVRFShares()
+			if len(held) > t {
+				fail("C33:more-than-threshold-shares-held", fmt.Sprintf("the round holds %d VRF shares", len(held)))
+				return
+			}
+			for k, sh := range held {
+				pi, known := idIndex[sh.GetParty().GetKey()]
+				if sh.GetParty().GetKey() != k || !known {
+					fail("C33:share-stored-under-wrong-party", "key "+k)
+					return
+				}
+				if refOKAt(pi, sh.Share, sh.GetRoundTimeoutCount(), cur) {
+					continue
+				}
+				cl := classOf[key(pi, sh.Share, sh.GetRoundTimeoutCount())]
+				if cl == "" {
+					cl = "unknown"
+				}
+				if nd.restarts > 0 && sh.GetRoundTimeoutCount() < cur && nd.preKeys[key(pi, sh.Share, sh.GetRoundTimeoutCount())] {
+					if nd.stale {
+						continue
+					}
+					nd.stale = true
+					defer func() { nd.failed = false }() // what the round derives from such a set is judged as well
+					fail("C33:share-of-earlier-timeout-count-counted-after-restart", fmt.Sprintf("the round's VRF shares contain the share party %d sent for timeout count %d, counted before the round restarted; it does not verify against the message of timeout count %d", pi, sh.GetRoundTimeoutCount(), cur))
+					return
+				}
+				fail("C33:invalid-share-counted-"+cl, fmt.Sprintf("the round's VRF shares contain a %s share of party %d (timeout count %d, round's %d) that fails verification against the round's message", cl, pi, sh.GetRoundTimeoutCount(), cur))
+				return
+			}
+			if nd.mr.HasRandomSeed() {
+				if len(nd.seenAt) < t || len(held) < t {
+					fail("C33:seed-below-threshold", fmt.Sprintf("the round has random seed %d; valid shares of %d parties for this timeout count were delivered, %d are held", nd.mr.GetRandomSeed(), len(nd.seenAt), len(held)))
+					return
+				}
+				if cur == finalTC && (nd.mr.GetRandomSeed() != wantSeed || nd.mr.GetVRFOutput() != wantRBO) {
+					fail("C33:seed-not-from-valid-group-signature", fmt.Sprintf("seed %d (vrf output %.16s), the group signature recovered from valid shares defines %d (%.16s)", nd.mr.GetRandomSeed(), nd.mr.GetVRFOutput(), wantSeed, wantRBO))
+					return
+				}
+			} else if len(nd.seenAt) < t {
+				run.Count("c33.below_threshold_evaluated", 1)
+			}
+		}
+		deliver := func(nd *c33RNode, m c33PMsg, phase string, si int) {
+			if nd.failed {
+				return
+			}
+			cur := nd.mr.GetTimeoutCount()
+			isValid := refOKAt(m.party, m.share, m.tc, cur)
+			if isValid {
+				nd.seenAt[m.party] = true
+			} else {
+				run.Count("c33.invalid_share_evaluated", 1)
+			}
+			if phase != "late" {
+				nd.preKeys[key(m.party, m.share, m.tc)] = true
+			}
+			before := len(nd.mr.GetVRFShares())
+			p := guard(func() { mc.AddVRFShare(ctx, nd.mr, toVRFS(m)) })
+			run.Eval(1)
+			run.Count("c33.restart_delivery_step", 1)
+			if p != "" {
+				violate(run, "C33:share-processing-panics-"+m.class, fmt.Sprintf("t=%d n=%d, observer %s, %s step %d: Chain.AddVRFShare panicked on a %s share: %s", t, n, nd.name, phase, si, m.class, p), rep(nd, phase, si))
+				nd.failed = true
+				return
+			}
+			if after := len(nd.mr.GetVRFShares()); after > before && nd.restarts > 0 {
+				run.Count("c33.restart_share_counted_after_restart", 1)
+			}
+			judge(nd, phase, si, fmt.Sprintf("%s from party %d, timeout count %d", m.class, m.party, m.tc))
+		}
+		restart := func(nd *c33RNode, how string, si int) {
+			if nd.failed {
+				return
+			}
+			heldBefore := len(nd.mr.GetVRFShares())
+			tcBefore := nd.mr.GetTimeoutCount()
+			var err error
+			p := guard(func() { err = nd.mr.Restart() })
+			if p != "" || err != nil {
+				run.Inconclusive(fmt.Sprintf("%s observer %s: the round cannot be restarted (%v %s)", tn, nd.name, err, p))
+				nd.failed = true
+				return
+			}
+			switch how {
+			case "increment": // miner.Chain.restartRound
+				nd.mr.IncrementTimeoutCount(prevSeed, mc.GetMiners(rn))
+			case "set": // a block of the next timeout count arrived
+				nd.mr.SetTimeoutCount(tcBefore + 1)
+			case "increment-then-set":
+				nd.mr.IncrementTimeoutCount(prevSeed, mc.GetMiners(rn))
+			}
+			if nd.mr.GetTimeoutCount() == tcBefore {
+				// server_chain.round_timeouts.timeout_cap: the restarted round keeps its timeout count (and its message)
+				run.Count("c33.restart_timeout_count_capped", 1)
+			}
+			nd.restarts++
+			nd.seenAt = map[int]bool{}
+			for k, sh := range nd.mr.GetVRFShares() {
+				// (a share that is still held and verifies for the count the round has now stays a delivered valid share)
+				if pi, ok := idIndex[k]; ok && refOKAt(pi, sh.Share, sh.GetRoundTimeoutCount(), nd.mr.GetTimeoutCount()) {
+					nd.seenAt[pi] = true
+				}
+			}
+			run.Eval(1)
+			run.Count("c33.restart_performed", 1)
+			run.Count("c33.restart_performed."+how, 1)
+			if heldBefore > 0 {
+				run.Count("c33.restart_with_partial_shares", 1)
+			}
+			judge(nd, "restart", si, fmt.Sprintf("Round.Restart with %d share(s) held, timeout count %d -> %d (%s)", heldBefore, tcBefore, nd.mr.GetTimeoutCount(), how))
+			if nd.failed {
+				return
+			}
+			if nd.mr.GetTimeoutCount() < nd.startTC+nd.restarts {
+				nd.mr.SetTimeoutCount(nd.startTC + nd.restarts)
+				// the count moved without a restart in between: what is held was checked against the message of the old count
+				nd.seenAt = map[int]bool{}
+				judge(nd, "raised", si, fmt.Sprintf("SetTimeoutCount(%d) after the restart", nd.startTC+nd.restarts))
+			}
+		}
+		for _, nd := range obs {
+			for i, st := range nd.stages {
+				for si, m := range st {
+					deliver(nd, m, fmt.Sprintf("before-restart-%d", i+1), si)
+				}
+				restart(nd, nd.raise[i], i)
+			}
+			if !nd.failed && nd.mr.GetTimeoutCount() != finalTC {
+				run.Inconclusive(fmt.Sprintf("%s observer %s: timeout count %d after the restarts, the workload assumed %d", tn, nd.name, nd.mr.GetTimeoutCount(), finalTC))
+				nd.failed = true
+			}
+		}
+		if got, err := mc.GetBlsMessageForRound(obs[len(obs)-1].mr.Round); err != nil || got != msg {
+			run.Inconclusive(fmt.Sprintf("%s: VRF message of the final timeout count is %q (err %v), the workload assumed %q", tn, got, err, msg))
+			return
+		}
+		for _, nd := range obs {
+			for si, m := range nd.late {
+				deliver(nd, m, "late", si)
+			}
+		}
+		// ---- end of the episode: agreement between the observers
+		var withSeed []*c33RNode
+		for _, nd := range obs {
+			hasSeed := nd.mr.HasRandomSeed()
+			run.Distinct(fmt.Sprintf("restart|%s|%s|final-tc=%d|restarts=%d|seed=%v|failed=%v", tn, nd.name, finalTC, nd.restarts, hasSeed, nd.failed))
+			if nd.failed {
+				continue
+			}
+			if hasSeed {
+				withSeed = append(withSeed, nd)
+				continue
+			}
+			if len(nd.mr.GetVRFShares()) >= t {
+				// as in (d): threshold-many verified shares without a seed is a liveness matter, recorded only
+				run.Count("c33.observed_threshold_shares_held_without_seed_after_restart", 1)
+				continue
+			}
+			violate(run, "C33:valid-share-not-counted", fmt.Sprintf("t=%d n=%d, observer %s (%d restart(s)): every party's valid share for timeout count %d was delivered after the last restart, the round holds %d shares and has no seed", t, n, nd.name, nd.restarts, finalTC, len(nd.mr.GetVRFShares())), rep(nd, "end", 0))
+		}
+		for i := 1; i < len(withSeed); i++ {
+			run.Eval(1)
+			run.Count("c33.seed_agreement_evaluated", 1)
+			run.Count("c33.restart_seed_agreement_evaluated", 1)
+			a, b := withSeed[0], withSeed[i]
+			if a.mr.GetRandomSeed() != b.mr.GetRandomSeed() || a.mr.GetVRFOutput() != b.mr.GetVRFOutput() {
+				violate(run, "C33:seeds-differ-between-restarted-and-other-miners", fmt.Sprintf("t=%d n=%d round %d timeout count %d: observer %s (%d restart(s)) derived seed %d, observer %s (%d restart(s)) derived %d from the same share messages", t, n, rn, finalTC, a.name, a.restarts, a.mr.GetRandomSeed(), b.name, b.restarts, b.mr.GetRandomSeed()),
+					map[string]interface{}{"seed": mon.Seed(), "t": t, "n": n, "a": rep(a, "end", 0), "b": rep(b, "end", 0)})
+			}
+		}
 	}
 }
 
